@@ -22,9 +22,12 @@
     an element of the source with the same hash code), any precision (`PrecMono o`).
   * `Example.hyps`: a concrete pair with a three-hunk diff (one of them inside a nested list)
     satisfies all the hypotheses.
-  * FINDING (`Example.cexA`, `Example.cexB`): without `ZeroOK` the statement is FALSE for the
-    model and for the Go library: `[1,{"a":0}]` → `[2,{"a":-0}]` produces a hunk whose after-context
-    is wrong, and `a.Patch(a.Diff(b))` fails.
+  * FORMER FINDING (`Example.cexA`, `Example.cexB`): with the ORIGINAL hash (taken over the bits of
+    the numbers, `0` and `-0` different) the statement was FALSE without `ZeroOK`, for the model and
+    for the Go library: `[1,{"a":0}]` → `[2,{"a":-0}]` produced a hunk whose after-context was wrong,
+    and `a.Patch(a.Diff(b))` failed. The Go code was repaired (`0` and `-0` hash alike,
+    JdModel.Hash); on the repaired model the pair goes through (see the `#eval`s). `ZeroOK` is kept
+    as a hypothesis: it is now stronger than necessary.
 
   Structure of the proof: unfolding equations of `diffNode` / `diffKvs` / `diffRest` in list mode
   and an induction principle with only the reachable branches (`listDiff_induct`, from
@@ -2294,7 +2297,7 @@ theorem diffM_list_correct_noPrecision (L : FloatLaws) (o : Opts) (ho : dispatch
     diffM_list_correct L o ho hm a b ha1 ha2 ha3 ha4 hb1 hb2 hb3 hb4 H Z
   exact ⟨r, h1, h2 (PrecMono.of_noPrecision hp)⟩
 
-/-! ## 12. non-vacuity, and the counterexample that makes `ZeroOK` necessary -/
+/-! ## 12. non-vacuity, and the former counterexample behind `ZeroOK` -/
 
 namespace Example
 
@@ -2338,26 +2341,28 @@ example (L : FloatLaws) :
   exact ⟨r, hr, e⟩
 
 
-/-! ### why `ZeroOK` is needed: a pair on which `a.Diff(b)` does NOT apply to `a`
+/-! ### why `ZeroOK` was introduced: a pair on which `a.Diff(b)` did NOT apply to `a`
 
 `a = [1, {"a": 0}]`, `b = [2, {"a": -0}]` (all other hypotheses hold; checked by `decide` below).
-The two objects have different hash codes (the hash is taken over the bits of the numbers) so they
-are not a common element, they are compatible containers, and their sub-diff is EMPTY because
-scalars are compared with `Equals` (`0 == -0` as floats). `diffRest` then takes the after-context of
-the accumulated hunk `- 1 + 2` from the position AFTER the object (`after()` is evaluated once
-more after the cursor has advanced, because `len(d) < 2`), here the end of the array, while the
-element that follows the removed `1` in the document is the object: the context check fails.
-The Go library (v2, `a.Patch(a.Diff(b))`) answers `invalid patch. expected {} after. got map[a:0]`
-on this input; the model reproduces it: -/
+BEFORE THE REPAIR of the hash (it was taken over the bits of the numbers) the two objects had
+different hash codes so they were not a common element, they are compatible containers, and their
+sub-diff is EMPTY because scalars are compared with `Equals` (`0 == -0` as floats). `diffRest` then
+took the after-context of the accumulated hunk `- 1 + 2` from the position AFTER the object
+(`after()` is evaluated once more after the cursor has advanced, because `len(d) < 2`), here the end
+of the array, while the element that follows the removed `1` in the document is the object: the
+context check failed. The unrepaired Go library (v2, `a.Patch(a.Diff(b))`) answered
+`invalid patch. expected {} after. got map[a:0]` on this input.
+AFTER THE REPAIR (`hashCode o (.num bits)` maps `-0` to `0`, JdModel.Hash) the two objects have the
+same hash code, are a common element, and the diff applies; the model shows it: -/
 
 def pz : Json := .num 0
 def nz : Json := .num 0x8000000000000000
 def cexA : Json := .arr .raw [one, .obj [("a", pz)]]
 def cexB : Json := .arr .raw [.num 0x4000000000000000, .obj [("a", nz)]]
 
--- one hunk `@ [0]  [ -1 +2 ]` whose after-context is the end-of-array marker
+-- one hunk `@ [0]  [ -1 +2 ]` whose after-context is now the object `{"a":0}`
 #eval diffM [] cexA cexB
--- `none`: the hunk is rejected
+-- `some [2, {"a":0}]`: the hunk is accepted (it was `none` before the repair)
 #eval applyStrictAll cexA (diffM [] cexA cexB)
 -- `true`: `0` and `-0` are equal as floats, which is what `ZeroOK` excludes
 #eval numWithin 0 0 0x8000000000000000
